@@ -213,7 +213,7 @@ func c14Round(e *vfEnv, r *vfkit.R, rng *rand.Rand, round int) {
 				}
 			}
 			globals.sessionStore.lock.Unlock()
-			r.Violation("blocked-forever:"+bl[0], "no quiescence: server goroutines are blocked: "+strings.Join(bl, "; "), map[string]any{"stacks": c14LastStacks, "stuck_sessions": stuck})
+			r.Violation("blocked-forever:"+bl[0], "no quiescence: server goroutines are blocked: "+strings.Join(bl, "; "), map[string]any{"stacks": c14LastStacks, "stuck_sessions": stuck, "why_not_quiescent": vfQWhy, "all_server_goroutines": c14ServerGoroutines()})
 		} else {
 			r.Inconclusive("c14: no quiescence: " + vfQWhy)
 		}
@@ -302,7 +302,21 @@ func c14Round(e *vfEnv, r *vfkit.R, rng *rand.Rand, round int) {
 			topicSide[key{s.sid, t.name}] = true
 			r.Hit("attachment_tables_agree")
 			if !liveSess[s] {
-				r.Violation("dead-session-attached", fmt.Sprintf("topic %s lists session %s which is not in the session registry", topicKind(t.name), s.sid), nil)
+				infl := -1
+				if s.inflightReqs != nil {
+					infl = len(s.inflightReqs.sem)
+				}
+				c14Blocked()
+				buf := make([]byte, 4<<20)
+				n := runtime.Stack(buf, true)
+				var rel []string
+				for _, g := range strings.Split(string(buf[:n]), "\n\n") {
+					if strings.Contains(g, "cleanUp") || strings.Contains(g, "readLoop") && strings.Contains(g, fmt.Sprintf("%p", s)) {
+						rel = append(rel, g)
+					}
+				}
+				r.Violation("dead-session-attached", fmt.Sprintf("topic %s lists session %s which is not in the session registry", topicKind(t.name), s.sid),
+					map[string]any{"ua": s.userAgent, "terminating": atomic.LoadInt32(&s.terminating), "inflight": infl, "uid": s.uid.UserId(), "pssd_uid": pssd.uid.UserId(), "goroutines": rel, "last_sends": c14SendsOf(workers, s.userAgent)})
 			}
 			if !s.background {
 				online[pssd.uid]++
@@ -403,6 +417,33 @@ func c14LastSends(c *vfClient, n int) []string {
 		if i >= 0 {
 			out = append(out, fmt.Sprintf("%d %s", c.sends[i].T, truncate(c.sends[i].Raw, 200)))
 		}
+	}
+	return out
+}
+
+func c14SendsOf(workers []*c14Worker, ua string) []string {
+	for _, wk := range workers {
+		if "vf/"+wk.c.name == ua {
+			return c14LastSends(wk.c, 25)
+		}
+	}
+	return nil
+}
+
+func c14ServerGoroutines() []string {
+	buf := make([]byte, 8<<20)
+	n := runtime.Stack(buf, true)
+	var out []string
+	for _, g := range strings.Split(string(buf[:n]), "\n\n") {
+		if strings.Contains(g, "chat/server.") && !strings.Contains(g, "readLoop") && !strings.Contains(g, "writeLoop") && !strings.Contains(g, ".reader(") {
+			if len(g) > 900 {
+				g = g[:900]
+			}
+			out = append(out, g)
+		}
+	}
+	if len(out) > 40 {
+		out = out[:40]
 	}
 	return out
 }
